@@ -5,7 +5,7 @@ SRC=${1:-/tmp/mutout}
 ROUND=${2:-1}   # round 2: a,b are stored as c,d; round 3: as e,f (earlier directories are never overwritten)
 for d in $SRC/C*/[ab]/; do
   [ -f "$d/patch.diff" ] || continue
-  prop=$(basename $(dirname $d)); x=$(basename $d); [ "$ROUND" = 2 ] && x=$(echo $x | tr ab cd); [ "$ROUND" = 3 ] && x=$(echo $x | tr ab ef); [ "$ROUND" = 4 ] && x=$(echo $x | tr ab gh); id="$prop-$x"
+  prop=$(basename $(dirname $d)); x=$(basename $d); [ "$ROUND" = 2 ] && x=$(echo $x | tr ab cd); [ "$ROUND" = 3 ] && x=$(echo $x | tr ab ef); [ "$ROUND" = 4 ] && x=$(echo $x | tr ab gh); [ "$ROUND" = 5 ] && x=$(echo $x | tr ab ij); id="$prop-$x"
   W=/tmp/sw-$id; rm -rf $W; git -C /repo worktree add -q --detach $W HEAD || continue
   ( cd $W && git apply "$d/patch.diff" ) || { echo "$id: patch does not apply"; git -C /repo worktree remove --force $W; continue; }
   tests=$(cd $W && timeout 600 /venv/bin/python -m pytest -q -p no:cacheprovider 2>&1 | tail -1)
